@@ -1,7 +1,11 @@
 (* C15 round 3: model of vyper/ir/compile_ir.py:_IRnodeLowerer._step_r (IR -> assembly) for the node kinds
    literal, with-variable, EVM opcode, with, set, seq, pass, if (2/3), assert, assert_unreachable, the pseudo-ops
-   le ge sle sge ne ceil32 and select; everything else is declined (Err TypeErr).  No proofs here.
-   State: the symbol counter of mksymbol and the shared revert label of _assert_false. *)
+   le ge sle sge ne ceil32 and select, and (round 3b) the control-flow kinds repeat / break / continue / cleanup_repeat /
+   goto / djump / symbol / label / unique_symbol / exit_to (CodegenPanic) / sha3_64 / dload / dloadbytes; everything else is
+   declined (Err TypeErr).  No proofs here.
+   State: the symbol counter of mksymbol, the shared revert label of _assert_false, existing_labels; `lh` is a ghost
+   field (not part of the real lowerer): the stack height at which each generated label is placed (None: any height).
+   Parameters: wa = withargs, bd = break_dest (exit label, continue label, height). *)
 From Coq Require Import ZArith Bool List String Ascii DecimalString.
 From Verif Require Import Base.Word256 Base.PyInt C15.Syntax C15.GenUtils C15.Peephole.
 Import ListNotations.
@@ -43,6 +47,8 @@ Fixpoint valency (e : expr) : nat :=
           else if String.eqb op "with" then match args with [_; _; b] => valency b | _ => 0 end
           else if String.eqb op "seq" then
             (fix last (l : list expr) : nat := match l with [] => 0 | [x] => valency x | _ :: t => last t end) args
+          else if existsb (String.eqb op) ["repeat"; "goto"; "exit_to"; "label"; "unique_symbol"; "var_list"; "deploy"]%string
+          then 0
           else 1
       end
   end%nat.
@@ -57,34 +63,77 @@ Definition push (x : Z) : list item :=
   let bs := bytes_of 33 x [] in
   Op ("PUSH" ++ nat_str (List.length bs)) :: map Imm bs.
 
-Record lst := { cnt : nat; revl : option string }.
-Definition mksym (name : string) (s : lst) : string * lst :=
-  let c := S (cnt s) in ((name ++ "_" ++ nat_str c)%string, {| cnt := c; revl := revl s |}).
+Record lst := { cnt : nat; revl : option string; labels : list string; lh : list (string * option nat) }.
+Definition mksym (name : string) (ht : option nat) (s : lst) : string * lst :=
+  let c := S (cnt s) in let l := (name ++ "_" ++ nat_str c)%string in
+  (l, {| cnt := c; revl := revl s; labels := labels s; lh := (l, ht) :: lh s |}).
 Definition assert_false (s : lst) : list item * lst :=
   match revl s with
   | Some l => ([PushLbl l; Op "JUMPI"], s)
-  | None => let '(l, s1) := mksym "revert" s in ([PushLbl l; Op "JUMPI"], {| cnt := cnt s1; revl := Some l |})
+  | None => let '(l, s1) := mksym "revert" None s in
+            ([PushLbl l; Op "JUMPI"], {| cnt := cnt s1; revl := Some l; labels := labels s1; lh := lh s1 |})
   end.
+(* existing_labels *)
+Definition add_label (l : string) (s : lst) : res lst :=
+  if existsb (String.eqb l) (labels s) then Err Raised
+  else Ok {| cnt := cnt s; revl := revl s; labels := l :: labels s; lh := lh s |}.
+Definition start_nonzero (e : expr) : bool := match e with Lit 0 => false | _ => true end.
+Definition leaf_name (e : expr) : option string := match e with Var x => Some x | Node x [] => Some x | _ => None end.
+Definition has (x : string) (wa : list (string * nat)) : bool := match assoc x wa with Some _ => true | None => false end.
+Definition pass_ : expr := Node "pass" [].
 
 Definition unsupported {A} : res A := Err TypeErr.
 
-Fixpoint lower (fuel : nat) (wa : list (string * nat)) (h : nat) (e : expr) (s : lst) : res (list item * lst) :=
+(* compile a list of nodes at increasing heights, concatenating (reversed opcode / goto arguments) *)
+Fixpoint many_ (rec : nat -> expr -> lst -> res (list item * lst)) (l : list expr) (h : nat) (s : lst)
+    : res (list item * lst) :=
+  match l with
+  | [] => Ok ([], s)
+  | x :: t => '(a, s1) <- rec h x s ;; '(b, s2) <- many_ rec t (S h) s1 ;; Ok ((a ++ b)%list, s2)
+  end.
+(* seq: every valued element but the last (by position) is popped *)
+Fixpoint seq_ (rec : expr -> lst -> res (list item * lst)) (l : list expr) (s : lst) : res (list item * lst) :=
+  match l with
+  | [] => Ok ([], s)
+  | x :: t =>
+      '(a, s1) <- rec x s ;;
+      let p := if Nat.eqb (valency x) 1 && negb (match t with [] => true | _ => false end) then [Op "POP"] else [] in
+      '(b, s2) <- seq_ rec t s1 ;; Ok ((a ++ p ++ b)%list, s2)
+  end.
+(* _data_ofst_of(Label("code_end"), ofst, height) *)
+Definition data_ofst_ (rec : nat -> expr -> lst -> res (list item * lst)) (ofst : expr) (hh : nat) (s : lst)
+    : res (list item * lst) :=
+  match ofst with
+  | Lit v => Ok ([PushOfst "code_end" v], s)
+  | _ => '(a, s1) <- rec hh ofst s ;; Ok ((a ++ [PushLbl "code_end"; Op "ADD"])%list, s1)
+  end.
+(* repeat: assert rounds <= rounds_bound; if rounds == 0 goto exit (only when rounds is not the bound itself) *)
+Definition bound_check_ (rec : nat -> expr -> lst -> res (list item * lst)) (exit_ : string) (rounds bound : expr)
+    (h : nat) (s : lst) : res (list item * lst) :=
+  if expr_eqb rounds bound then Ok ([], s) else
+    '(ab, t1) <- rec (S (S h)) bound s ;;
+    let '(af, t2) := assert_false t1 in
+    Ok ((ab ++ [Op "DUP2"; Op "GT"] ++ af ++ [Op "DUP1"; Op "ISZERO"; PushLbl exit_; Op "JUMPI"])%list, t2).
+(* label: for arg in reversed(var_args): withargs[arg] = height; height += 1 *)
+Fixpoint scope_ (l : list expr) (hh : nat) (acc : list (string * nat)) : option (list (string * nat) * nat) :=
+  match l with
+  | [] => Some (acc, hh)
+  | p :: t => match leaf_name p with Some x => scope_ t (S hh) ((x, hh) :: acc) | None => None end
+  end.
+
+Fixpoint lower (fuel : nat) (wa : list (string * nat)) (bd : option (string * string * nat)) (h : nat) (e : expr) (s : lst)
+    : res (list item * lst) :=
   match fuel with
   | O => Err OutOfFuel
   | S f =>
-    (* compile a list of nodes at increasing heights, concatenating (used for reversed opcode arguments) *)
-    let fix many (l : list expr) (h : nat) (s : lst) : res (list item * lst) :=
-      match l with
-      | [] => Ok ([], s)
-      | x :: t => '(a, s1) <- lower f wa h x s ;; '(b, s2) <- many t (S h) s1 ;; Ok ((a ++ b)%list, s2)
-      end in
+    let many := many_ (lower f wa bd) in
     match e with
     | Lit v => if lit_okb v then Ok (push (v mod W), s) else Err AssertFail
     | Var x =>
         if match assoc (upper x) evm_opcodes with Some _ => true | None => false end then Ok ([Op (upper x)], s) else
         match assoc x wa with
         | Some hx => let d := (h - hx)%nat in if Nat.ltb 16 d then Err Raised else Ok ([Op ("DUP" ++ nat_str d)], s)
-        | None => unsupported
+        | None => Err Raised      (* CompilerPanic: invalid IRnode *)
         end
     | Node op args =>
       if match assoc (upper op) evm_opcodes with Some _ => true | None => false end then
@@ -95,7 +144,7 @@ Fixpoint lower (fuel : nat) (wa : list (string * nat)) (h : nat) (e : expr) (s :
             match assoc x wa with
             | Some hx => let d := (h - hx)%nat in
                 if Nat.ltb 16 d then Err Raised else
-                '(a, s1) <- lower f wa h v s ;; Ok ((a ++ [Op ("SWAP" ++ nat_str d); Op "POP"])%list, s1)
+                '(a, s1) <- lower f wa bd h v s ;; Ok ((a ++ [Op ("SWAP" ++ nat_str d); Op "POP"])%list, s1)
             | None => Err Raised
             end
         | _ => Err Raised
@@ -104,62 +153,54 @@ Fixpoint lower (fuel : nat) (wa : list (string * nat)) (h : nat) (e : expr) (s :
       else if String.eqb op "if" then
         match args with
         | [c; t] =>
-            '(ac, s1) <- lower f wa h c s ;;
-            let '(lend, s2) := mksym "join" s1 in
-            '(at_, s3) <- lower f wa h t s2 ;;
+            '(ac, s1) <- lower f wa bd h c s ;;
+            let '(lend, s2) := mksym "join" (Some h) s1 in
+            '(at_, s3) <- lower f wa bd h t s2 ;;
             Ok ((ac ++ [Op "ISZERO"; PushLbl lend; Op "JUMPI"] ++ at_ ++ [Lbl lend])%list, s3)
         | [c; t; el] =>
-            '(ac, s1) <- lower f wa h c s ;;
-            let '(lmid, s2) := mksym "else" s1 in
-            let '(lend, s3) := mksym "join" s2 in
-            '(at_, s4) <- lower f wa h t s3 ;;
-            '(ae, s5) <- lower f wa h el s4 ;;
+            '(ac, s1) <- lower f wa bd h c s ;;
+            let '(lmid, s2) := mksym "else" (Some h) s1 in
+            let '(lend, s3) := mksym "join" (Some (h + valency t)%nat) s2 in
+            '(at_, s4) <- lower f wa bd h t s3 ;;
+            '(ae, s5) <- lower f wa bd h el s4 ;;
             Ok ((ac ++ [Op "ISZERO"; PushLbl lmid; Op "JUMPI"] ++ at_ ++ [PushLbl lend; Op "JUMP"; Lbl lmid] ++ ae ++ [Lbl lend])%list, s5)
         | _ => unsupported
         end
       else if String.eqb op "with" then
         match args with
         | [Var x; v; b] =>
-            '(av, s1) <- lower f wa h v s ;;
-            '(ab, s2) <- lower f ((x, h) :: wa) (S h) b s1 ;;
+            '(av, s1) <- lower f wa bd h v s ;;
+            '(ab, s2) <- lower f ((x, h) :: wa) bd (S h) b s1 ;;
             Ok ((av ++ ab ++ (if Nat.eqb (valency b) 0 then [Op "POP"] else [Op "SWAP1"; Op "POP"]))%list, s2)
         | _ => unsupported
         end
       else if String.eqb op "seq" then
-        (* every valued element but the last (by position) is popped *)
-        (fix go (l : list expr) (s : lst) : res (list item * lst) :=
-           match l with
-           | [] => Ok ([], s)
-           | x :: t =>
-               '(a, s1) <- lower f wa h x s ;;
-               let p := if Nat.eqb (valency x) 1 && negb (match t with [] => true | _ => false end) then [Op "POP"] else [] in
-               '(b, s2) <- go t s1 ;; Ok ((a ++ p ++ b)%list, s2)
-           end) args s
+                seq_ (lower f wa bd h) args s
       else if String.eqb op "assert_unreachable" then
         match args with
-        | [c] => '(ac, s1) <- lower f wa h c s ;;
-                 let '(lend, s2) := mksym "reachable" s1 in
+        | [c] => '(ac, s1) <- lower f wa bd h c s ;;
+                 let '(lend, s2) := mksym "reachable" (Some h) s1 in
                  Ok ((ac ++ [PushLbl lend; Op "JUMPI"; Op "INVALID"; Lbl lend])%list, s2)
         | _ => unsupported
         end
       else if String.eqb op "assert" then
         match args with
-        | [c] => '(ac, s1) <- lower f wa h c s ;;
+        | [c] => '(ac, s1) <- lower f wa bd h c s ;;
                  let '(af, s2) := assert_false s1 in Ok ((ac ++ [Op "ISZERO"] ++ af)%list, s2)
         | _ => unsupported
         end
       else if String.eqb op "select" then
         match args with
         | [c; a; b] =>
-            '(ab, s1) <- lower f wa h b s ;; '(aa, s2) <- lower f wa (S h) a s1 ;;
-            '(ac, s3) <- lower f wa (S (S h)) c s2 ;;
+            '(ab, s1) <- lower f wa bd h b s ;; '(aa, s2) <- lower f wa bd (S h) a s1 ;;
+            '(ac, s3) <- lower f wa bd (S (S h)) c s2 ;;
             Ok ((ab ++ aa ++ [Op "DUP2"; Op "XOR"] ++ ac ++ [Op "MUL"; Op "XOR"])%list, s3)
         | _ => unsupported
         end
       else
         let cmp (o : string) :=   (* (iszero (o a b)) *)
           match args with
-          | [a; b] => '(ab, s1) <- lower f wa h b s ;; '(aa, s2) <- lower f wa (S h) a s1 ;;
+          | [a; b] => '(ab, s1) <- lower f wa bd h b s ;; '(aa, s2) <- lower f wa bd (S h) a s1 ;;
                       Ok ((ab ++ aa ++ [Op o; Op "ISZERO"])%list, s2)
           | _ => unsupported
           end in
@@ -169,8 +210,96 @@ Fixpoint lower (fuel : nat) (wa : list (string * nat)) (h : nat) (e : expr) (s :
         else if String.eqb op "ceil32" then
           match args with
           | [x] => (* (and (add x 31) (not 31)) *)
-              '(ax, s1) <- lower f wa (S (S h)) x s ;;
+              '(ax, s1) <- lower f wa bd (S (S h)) x s ;;
               Ok ((push 31 ++ [Op "NOT"] ++ push 31 ++ ax ++ [Op "ADD"; Op "AND"])%list, s1)
+          | _ => unsupported
+          end
+        else if String.eqb op "repeat" then
+          match args with
+          | [Var i; start; rounds; bound; body] =>
+              let '(entry, s1) := mksym "loop_start" (Some (S (S h))) s in
+              let '(cont, s2) := mksym "loop_continue" (Some (S (S h))) s1 in
+              let '(exit_, s3) := mksym "loop_exit" (Some (S (S h))) s2 in
+              '(a1, s4) <- lower f wa bd h start s3 ;;
+              '(a2, s5) <- lower f wa bd (S h) rounds s4 ;;
+              '(a3, s6) <- bound_check_ (lower f wa bd) exit_ rounds bound h s5 ;;
+              let a4 := if start_nonzero start then [Op "DUP2"; Op "ADD"] else [] in
+              if has i wa then Err Raised else
+              '(a5, s7) <- lower f ((i, S h) :: wa) (Some (exit_, cont, S (S h))) (S (S h)) body s6 ;;
+              Ok ((a1 ++ a2 ++ a3 ++ a4 ++ [Op "SWAP1"; Lbl entry] ++ a5 ++ repeat (Op "POP") (valency body)
+                   ++ [Lbl cont; Op "PUSH1"; Imm 1; Op "ADD"; Op "DUP2"; Op "DUP2"; Op "XOR"; PushLbl entry; Op "JUMPI";
+                       Lbl exit_; Op "POP"; Op "POP"])%list, s7)
+          | _ => unsupported
+          end
+        else if String.eqb op "continue" then
+          match bd with Some (_, cont, _) => Ok ([PushLbl cont; Op "JUMP"], s) | None => Err Raised end
+        else if String.eqb op "break" then
+          match bd with
+          | Some (exit_, _, bh) => Ok ((repeat (Op "POP") (h - bh) ++ [PushLbl exit_; Op "JUMP"])%list, s)
+          | None => Err Raised
+          end
+        else if String.eqb op "cleanup_repeat" then
+          match bd with
+          | Some (_, _, bh) =>
+              let bh1 := if has "return_buffer" wa then (bh - 1)%nat else bh in
+              let bh2 := if has "return_pc" wa then (bh1 - 1)%nat else bh1 in
+              (* python: ["POP"] * n is [] for negative n; on nat both subtractions truncate, but -1 then -1 from 0 or 1
+                 also gives a non-positive python count *)
+              Ok (repeat (Op "POP") bh2, s)
+          | None => Err Raised
+          end
+        else if String.eqb op "goto" then
+          match args with
+          | Var target :: rest => '(a, s1) <- many (rev rest) h s ;; Ok ((a ++ [PushLbl target; Op "JUMP"])%list, s1)
+          | _ => unsupported
+          end
+        else if String.eqb op "djump" then
+          match args with
+          | t :: _ => '(a, s1) <- lower f wa bd h t s ;; Ok ((a ++ [Op "JUMP"])%list, s1)
+          | _ => Err Raised
+          end
+        else if String.eqb op "symbol" then
+          match args with Var l :: _ => Ok ([PushLbl l], s) | _ => unsupported end
+        else if String.eqb op "label" then
+          match args with
+          | [Var name; Node vl params; body] =>
+              if negb (String.eqb vl "var_list") then Err Raised else
+              s0 <- add_label name s ;;
+              (* new scope: for arg in reversed(var_args): withargs[arg] = height; height += 1 *)
+              match scope_ (rev params) 0%nat [] with
+              | Some (wa', hh) => '(a, s1) <- lower f wa' bd hh body s0 ;; Ok ((Lbl name :: a)%list, s1)
+              | None => unsupported
+              end
+          | _ => unsupported
+          end
+        else if String.eqb op "unique_symbol" then
+          match args with
+          | Var l :: _ => s1 <- add_label l s ;; Ok ([], s1)
+          | _ => unsupported
+          end
+        else if String.eqb op "exit_to" then Err Raised
+        else if String.eqb op "sha3_64" then
+          match args with
+          | [a; b] =>
+              '(aa, s1) <- lower f wa bd h a s ;; '(ab, s2) <- lower f wa bd (S h) b s1 ;;
+              Ok ((aa ++ ab ++ push 32 ++ [Op "MSTORE"] ++ push 0 ++ [Op "MSTORE"] ++ push 64 ++ push 0 ++ [Op "SHA3"])%list, s2)
+          | _ => unsupported
+          end
+        else
+        (* _data_ofst_of(Label("code_end"), ofst, height) *)
+        let data_ofst := data_ofst_ (lower f wa bd) in
+        if String.eqb op "dload" then
+          match args with
+          | [loc] => '(a, s1) <- data_ofst loc (S h) s ;;
+                     Ok ((push 32 ++ a ++ push 0 ++ [Op "CODECOPY"] ++ push 0 ++ [Op "MLOAD"])%list, s1)
+          | _ => unsupported
+          end
+        else if String.eqb op "dloadbytes" then
+          match args with
+          | [dst; src; len_] =>
+              '(a1, s1) <- lower f wa bd h len_ s ;; '(a2, s2) <- data_ofst src (S h) s1 ;;
+              '(a3, s3) <- lower f wa bd (S (S h)) dst s2 ;;
+              Ok ((a1 ++ a2 ++ a3 ++ [Op "CODECOPY"])%list, s3)
           | _ => unsupported
           end
         else unsupported
@@ -179,5 +308,5 @@ Fixpoint lower (fuel : nat) (wa : list (string * nat)) (h : nat) (e : expr) (s :
 
 (* _IRnodeLowerer.compile_to_assembly for a tree without data segments *)
 Definition lower_top (e : expr) : res (list item) :=
-  '(a, s) <- lower 64 [] 0 e {| cnt := 0; revl := None |} ;;
+  '(a, s) <- lower 64 [] None 0 e {| cnt := 0; revl := None; labels := []; lh := [] |} ;;
   Ok (a ++ [Op "STOP"] ++ match revl s with Some l => [Lbl l] ++ push 0 ++ [Op "DUP1"; Op "REVERT"] | None => [] end)%list.
